@@ -1,6 +1,6 @@
 (* Lemmas about the governance-settings model (property C48). *)
 From ZC Require Import Model.Settings.
-From Coq Require Import Sorting.Permutation Lia.
+From Coq Require Import Sorting.Permutation Lia OrdersEx.
 Open Scope Z_scope.
 
 (* ---------- stores ---------- *)
@@ -17,196 +17,100 @@ Proof.
       * apply IH.
 Qed.
 
-(* ---------- update = all entries evaluate, in any order ---------- *)
+(* ---------- the sorted visiting order ---------- *)
 
-Definition st_eval_okb (sp : st_spec) (e : st_entry) : bool :=
-  match st_eval sp e with ROk _ => true | _ => false end.
-
-Definition st_skey (sp : st_spec) (e : st_entry) : string :=
-  match st_eval sp e with ROk (k, _) => k | _ => EmptyString end.
-
-(* value assigned to setting k by the first entry that assigns it *)
-Fixpoint st_find (sp : st_spec) (es : list st_entry) (k : string) : option st_val :=
-  match es with
-  | [] => None
-  | e :: tl => match st_eval sp e with
-               | ROk (k', v) => if String.eqb k' k then Some v else st_find sp tl k
-               | _ => st_find sp tl k
-               end
-  end.
-
-(* the loop without the early return of faucetsc/vestingsc; equal to st_update when no entry is terminal *)
-Fixpoint st_update_all (sp : st_spec) (s : st_store) (es : list st_entry) : st_res st_store :=
-  match es with
-  | [] => ROk s
-  | e :: tl => match st_apply sp s e with
-               | ROk s' => st_update_all sp s' tl
-               | RReject => RReject
-               | RPanic => RPanic
-               end
-  end.
-
-Lemma st_update_no_terminal : forall sp es s,
-  forallb (fun e => negb (st_terminal sp e)) es = true -> st_update sp s es = st_update_all sp s es.
+Lemma st_leb_trans : forall a b c, String.leb a b = true -> String.leb b c = true -> String.leb a c = true.
 Proof.
-  induction es as [|e tl IH]; intros s H; [reflexivity|].
-  cbn [forallb] in H. apply andb_prop in H as [H1 H2].
-  cbn [st_update st_update_all]. destruct (st_apply sp s e); try reflexivity.
-  destruct (st_terminal sp e); [discriminate|]. apply IH. exact H2.
+  intros a b c. unfold String.leb.
+  destruct (String.compare a b) eqn:AB; try discriminate; intros _;
+    destruct (String.compare b c) eqn:BC; try discriminate; intros _.
+  - apply String.compare_eq_iff in AB. subst. rewrite BC. reflexivity.
+  - apply String.compare_eq_iff in AB. subst. rewrite BC. reflexivity.
+  - apply String.compare_eq_iff in BC. subst. rewrite AB. reflexivity.
+  - assert (T : String_as_OT.lt a c).
+    { destruct String_as_OT.lt_strorder as [_ Tr]. apply (Tr a b c); [exact AB|exact BC]. }
+    unfold String_as_OT.lt in T. change String_as_OT.compare with String.compare in T. rewrite T. reflexivity.
 Qed.
 
-(* the entries the loop looks at: up to and including the first terminal one *)
-Fixpoint st_reached (sp : st_spec) (es : list st_entry) : list st_entry :=
-  match es with
-  | [] => []
-  | e :: tl => if st_terminal sp e then [e] else e :: st_reached sp tl
-  end.
-
-Lemma st_reached_all : forall sp es,
-  (forall e, st_terminal sp e = false) -> st_reached sp es = es.
+Lemma st_insert_perm : forall e l, Permutation (e :: l) (st_insert e l).
 Proof.
-  intros sp es H. induction es as [|e tl IH]; [reflexivity|].
-  cbn [st_reached]. rewrite H, IH. reflexivity.
+  induction l as [|x tl IH]; cbn [st_insert]; [apply Permutation_refl|].
+  destruct (String.leb (e_key e) (e_key x)); [apply Permutation_refl|].
+  eapply perm_trans; [apply perm_swap|]. apply perm_skip. exact IH.
 Qed.
 
-Lemma st_update_reached_forall : forall sp es s s',
-  st_update sp s es = ROk s' -> Forall (fun e => exists kv, st_eval sp e = ROk kv) (st_reached sp es).
+Lemma st_sort_perm : forall l, Permutation l (st_sort l).
 Proof.
-  induction es as [|e tl IH]; intros s s' H; [constructor|].
-  cbn [st_update] in H. unfold st_apply in H. cbn [st_reached].
-  destruct (st_eval sp e) as [[k v]| |] eqn:E; try discriminate.
-  destruct (st_terminal sp e).
-  - constructor; [eauto|constructor].
-  - constructor; [eauto | eapply IH; eauto].
+  induction l as [|x tl IH]; cbn [st_sort]; [constructor|].
+  eapply perm_trans; [apply perm_skip; exact IH | apply st_insert_perm].
 Qed.
 
-Lemma st_update_all_ok_forall : forall sp es s s',
-  st_update_all sp s es = ROk s' -> Forall (fun e => exists kv, st_eval sp e = ROk kv) es.
+Inductive st_sorted : list st_entry -> Prop :=
+  | SsNil : st_sorted []
+  | SsOne : forall x, st_sorted [x]
+  | SsCons : forall x y l, String.leb (e_key x) (e_key y) = true -> st_sorted (y :: l) -> st_sorted (x :: y :: l).
+
+Lemma st_insert_sorted : forall e l, st_sorted l -> st_sorted (st_insert e l).
 Proof.
-  induction es as [|e tl IH]; intros s s' H; [constructor|].
-  cbn [st_update_all] in H. unfold st_apply in H.
-  destruct (st_eval sp e) as [[k v]| |] eqn:E; try discriminate.
-  constructor; [eauto | eapply IH; eauto].
+  intros e l H. induction H as [|y|y z l L H IH]; cbn [st_insert].
+  - constructor.
+  - destruct (String.leb (e_key e) (e_key y)) eqn:A; [constructor; [exact A|constructor]|].
+    constructor; [|constructor]. destruct (String.leb_total (e_key e) (e_key y)) as [T|T]; [congruence|exact T].
+  - destruct (String.leb (e_key e) (e_key y)) eqn:A.
+    + constructor; [exact A|]. constructor; assumption.
+    + cbn [st_insert] in IH. destruct (String.leb (e_key e) (e_key z)) eqn:B.
+      * constructor; [destruct (String.leb_total (e_key e) (e_key y)) as [T|T]; [congruence|exact T]|].
+        constructor; [exact B|exact H].
+      * constructor; [exact L|exact IH].
 Qed.
 
-Lemma st_update_all_ok_of_forall : forall sp es s,
-  forallb (st_eval_okb sp) es = true -> exists s', st_update_all sp s es = ROk s'.
+Lemma st_sort_sorted : forall l, st_sorted (st_sort l).
+Proof. induction l as [|x tl IH]; cbn [st_sort]; [constructor | apply st_insert_sorted; exact IH]. Qed.
+
+Lemma st_sorted_head_min : forall x l, st_sorted (x :: l) -> forall y, In y l -> String.leb (e_key x) (e_key y) = true.
 Proof.
-  induction es as [|e tl IH]; intros s H; [eexists; reflexivity|].
-  cbn [forallb] in H. apply andb_prop in H as [H1 H2].
-  cbn [st_update_all]. unfold st_apply. unfold st_eval_okb in H1.
-  destruct (st_eval sp e) as [[k v]| |]; try discriminate. apply IH; assumption.
+  intros x l. revert x. induction l as [|z tl IH]; intros x H y I; [destruct I|].
+  inversion H; subst. destruct I as [I|I]; [subst; assumption|].
+  eapply st_leb_trans; [eassumption|]. apply IH; assumption.
 Qed.
 
-Lemma st_update_all_ok_forallb : forall sp es s s',
-  st_update_all sp s es = ROk s' -> forallb (st_eval_okb sp) es = true.
+Lemma st_sorted_tail : forall x l, st_sorted (x :: l) -> st_sorted l.
+Proof. intros x l H. inversion H; subst; [constructor|assumption]. Qed.
+
+(* two sorted lists with the same entries and pairwise distinct keys are equal *)
+Lemma st_sorted_perm_eq : forall l l', st_sorted l -> st_sorted l' -> Permutation l l' -> NoDup (map e_key l) -> l = l'.
 Proof.
-  intros sp es s s' H. apply forallb_forall. intros e He.
-  pose proof (st_update_all_ok_forall _ _ _ _ H) as F. rewrite Forall_forall in F.
-  destruct (F e He) as [kv E]. unfold st_eval_okb. rewrite E. reflexivity.
+  induction l as [|x tl IH]; intros l' S S' P ND.
+  - apply Permutation_nil in P. subst. reflexivity.
+  - destruct l' as [|y tl']; [apply Permutation_sym, Permutation_nil in P; discriminate|].
+    assert (ND' : NoDup (map e_key (y :: tl'))).
+    { eapply Permutation_NoDup; [apply Permutation_map; exact P|exact ND]. }
+    assert (x = y).
+    { assert (Ix : In x (y :: tl')) by (eapply Permutation_in; [exact P|left; reflexivity]).
+      assert (Iy : In y (x :: tl)) by (eapply Permutation_in; [apply Permutation_sym; exact P|left; reflexivity]).
+      destruct Ix as [Ix|Ix]; [congruence|]. destruct Iy as [Iy|Iy]; [congruence|].
+      pose proof (st_sorted_head_min _ _ S y Iy) as A. pose proof (st_sorted_head_min _ _ S' x Ix) as B.
+      pose proof (String.leb_antisym _ _ A B) as K.
+      (* equal keys, but y is in tl and x heads a list without repeated keys *)
+      exfalso. cbn [map] in ND. inversion ND as [|a b Hn _]; subst. apply Hn. rewrite K. apply in_map. exact Iy. }
+    subst y. f_equal. apply IH.
+    + eapply st_sorted_tail; eauto.
+    + eapply st_sorted_tail; eauto.
+    + eapply Permutation_cons_inv; eauto.
+    + cbn [map] in ND. inversion ND; assumption.
 Qed.
 
-Lemma st_find_none_notin : forall sp es k,
-  forallb (st_eval_okb sp) es = true -> ~ In k (map (st_skey sp) es) -> st_find sp es k = None.
+Lemma st_sort_perm_eq : forall es1 es2, Permutation es1 es2 -> NoDup (map e_key es1) -> st_sort es1 = st_sort es2.
 Proof.
-  induction es as [|e tl IH]; intros k A N; [reflexivity|].
-  cbn [forallb] in A. apply andb_prop in A as [A1 A2].
-  cbn [st_find]. cbn [map In] in N. unfold st_eval_okb in A1. unfold st_skey in N at 1.
-  destruct (st_eval sp e) as [[k' v]| |]; try discriminate.
-  destruct (String.eqb_spec k' k) as [E|_]; [exfalso; apply N; left; exact E|].
-  apply IH; [assumption | intro I; apply N; right; exact I].
+  intros es1 es2 P ND. apply st_sorted_perm_eq; try apply st_sort_sorted.
+  - eapply perm_trans; [apply Permutation_sym, st_sort_perm|]. eapply perm_trans; [exact P|apply st_sort_perm].
+  - eapply Permutation_NoDup; [apply Permutation_map, st_sort_perm|exact ND].
 Qed.
 
-Lemma st_update_all_get : forall sp es s s',
-  st_update_all sp s es = ROk s' -> NoDup (map (st_skey sp) es) ->
-  forall k, st_get s' k = match st_find sp es k with Some v => Some v | None => st_get s k end.
-Proof.
-  induction es as [|e tl IH]; intros s s' H ND k.
-  - cbn in H. inversion H. reflexivity.
-  - pose proof (st_update_all_ok_forallb _ _ _ _ H) as AO.
-    cbn [forallb] in AO. apply andb_prop in AO as [_ AOtl].
-    cbn [st_update_all] in H. unfold st_apply in H. cbn [st_find].
-    cbn [map] in ND. inversion ND as [|x l Hnin ND']; subst. unfold st_skey in Hnin at 1.
-    destruct (st_eval sp e) as [[k1 v1]| |] eqn:E; try discriminate.
-    rewrite (IH _ _ H ND' k).
-    destruct (String.eqb_spec k1 k) as [Ek|Nk].
-    + subst k1. rewrite (st_find_none_notin _ _ _ AOtl Hnin). rewrite st_get_set.
-      rewrite String.eqb_refl. reflexivity.
-    + destruct (st_find sp tl k); [reflexivity|]. rewrite st_get_set.
-      destruct (String.eqb_spec k1 k); [contradiction|reflexivity].
-Qed.
-
-Lemma st_find_perm : forall sp es1 es2, Permutation es1 es2 ->
-  forallb (st_eval_okb sp) es1 = true -> NoDup (map (st_skey sp) es1) ->
-  forall k, st_find sp es1 k = st_find sp es2 k.
-Proof.
-  intros sp es1 es2 P. induction P as [|x l l' P IH|x y l|l l' l'' P1 IH1 P2 IH2]; intros A ND k.
-  - reflexivity.
-  - cbn [forallb] in A. apply andb_prop in A as [A1 A2]. cbn [map] in ND. inversion ND; subst.
-    cbn [st_find]. rewrite (IH A2 H2 k). reflexivity.
-  - cbn [forallb] in A. apply andb_prop in A as [Ay A']. apply andb_prop in A' as [Ax _].
-    cbn [map] in ND. inversion ND as [|a b Hnin ND']; subst. cbn [In] in Hnin.
-    cbn [st_find]. unfold st_eval_okb in Ax, Ay. unfold st_skey in Hnin.
-    destruct (st_eval sp y) as [[ky vy]| |]; try discriminate.
-    destruct (st_eval sp x) as [[kx vx]| |]; try discriminate.
-    destruct (String.eqb_spec ky k) as [E1|N1]; destruct (String.eqb_spec kx k) as [E2|N2]; try reflexivity.
-    exfalso. apply Hnin. left. congruence.
-  - assert (A' : forallb (st_eval_okb sp) l' = true).
-    { apply forallb_forall. intros e He. rewrite forallb_forall in A. apply A.
-      eapply Permutation_in; [apply Permutation_sym; exact P1 | exact He]. }
-    assert (ND' : NoDup (map (st_skey sp) l')).
-    { eapply Permutation_NoDup; [apply Permutation_map; exact P1 | exact ND]. }
-    rewrite (IH1 A ND k). apply IH2; assumption.
-Qed.
-
-(* outcome of two runs of the update loop: both fail, or both succeed with the same settings *)
-Definition st_res_same (a b : st_res st_store) : Prop :=
-  match a, b with
-  | ROk x, ROk y => forall k, st_get x k = st_get y k
-  | ROk _, _ | _, ROk _ => False
-  | _, _ => True
-  end.
-
-Lemma st_update_all_perm : forall sp s es1 es2,
-  Permutation es1 es2 -> NoDup (map (st_skey sp) es1) ->
-  st_res_same (st_update_all sp s es1) (st_update_all sp s es2).
-Proof.
-  intros sp s es1 es2 P ND.
-  destruct (forallb (st_eval_okb sp) es1) eqn:A.
-  - assert (A2 : forallb (st_eval_okb sp) es2 = true).
-    { apply forallb_forall. intros e He. rewrite forallb_forall in A. apply A.
-      eapply Permutation_in; [apply Permutation_sym; exact P | exact He]. }
-    destruct (st_update_all_ok_of_forall sp es1 s A) as [s1 H1].
-    destruct (st_update_all_ok_of_forall sp es2 s A2) as [s2 H2].
-    rewrite H1, H2. cbn. intro k.
-    assert (ND2 : NoDup (map (st_skey sp) es2)).
-    { eapply Permutation_NoDup; [apply Permutation_map; exact P | exact ND]. }
-    rewrite (st_update_all_get _ _ _ _ H1 ND k), (st_update_all_get _ _ _ _ H2 ND2 k).
-    rewrite (st_find_perm sp es1 es2 P A ND k). reflexivity.
-  - assert (A2 : forallb (st_eval_okb sp) es2 = false).
-    { destruct (forallb (st_eval_okb sp) es2) eqn:B; [|reflexivity].
-      rewrite <- A. symmetry. apply forallb_forall. intros e He. rewrite forallb_forall in B. apply B.
-      eapply Permutation_in; [exact P | exact He]. }
-    destruct (st_update_all sp s es1) eqn:H1.
-    + rewrite (st_update_all_ok_forallb _ _ _ _ H1) in A. discriminate.
-    + destruct (st_update_all sp s es2) eqn:H2; cbn; auto.
-      rewrite (st_update_all_ok_forallb _ _ _ _ H2) in A2. discriminate.
-    + destruct (st_update_all sp s es2) eqn:H2; cbn; auto.
-      rewrite (st_update_all_ok_forallb _ _ _ _ H2) in A2. discriminate.
-Qed.
-
+(* the outcome of an update is a function of the request (a Go map: distinct keys), not of its iteration order *)
 Lemma st_update_perm : forall sp s es1 es2,
-  Permutation es1 es2 -> NoDup (map (st_skey sp) es1) ->
-  forallb (fun e => negb (st_terminal sp e)) es1 = true ->
-  st_res_same (st_update sp s es1) (st_update sp s es2).
-Proof.
-  intros sp s es1 es2 P ND T.
-  assert (T2 : forallb (fun e => negb (st_terminal sp e)) es2 = true).
-  { apply forallb_forall. intros e He. rewrite forallb_forall in T. apply T.
-    eapply Permutation_in; [apply Permutation_sym; exact P | exact He]. }
-  rewrite (st_update_no_terminal _ _ _ T), (st_update_no_terminal _ _ _ T2).
-  apply st_update_all_perm; assumption.
-Qed.
+  Permutation es1 es2 -> NoDup (map e_key es1) -> st_update sp s es1 = st_update sp s es2.
+Proof. intros sp s es1 es2 P ND. unfold st_update. rewrite (st_sort_perm_eq es1 es2 P ND). reflexivity. Qed.
 
 (* ---------- what an accepted entry is ---------- *)
 
@@ -214,7 +118,7 @@ Qed.
 Definition st_listedb (sp : st_spec) (e : st_entry) : bool :=
   let k := st_ekey sp e in
   match st_lookup (sp_table sp) k with
-  | Some r => st_row_flag r
+  | Some r => (st_row_flag r || match sp_cost sp with CostAny => st_is_cost k | _ => false end)%bool
   | None => match sp_cost sp with
             | CostListed fns => (prefix "cost" k &&
                                  existsb (fun f => String.eqb (st_lower (st_trim_prefix "cost." k)) (st_lower f)) fns)%bool
@@ -222,34 +126,34 @@ Definition st_listedb (sp : st_spec) (e : st_entry) : bool :=
             end
   end.
 
-(* the escape hatch of minersc/storagesc: any key with the "cost." prefix *)
-Definition st_any_costb (sp : st_spec) (e : st_entry) : bool :=
-  match sp_cost sp with CostAny => st_is_cost (st_ekey sp e) | _ => false end.
-
-Lemma st_eval_ok_listed : forall sp e kv,
-  st_eval sp e = ROk kv -> st_listedb sp e = true \/ st_any_costb sp e = true.
+Lemma st_eval_ok_listed : forall sp e kv, st_eval sp e = ROk kv -> st_listedb sp e = true.
 Proof.
-  intros sp e kv H. unfold st_eval in H. unfold st_listedb, st_any_costb.
-  destruct (sp_cost sp) as [|fns|] eqn:C.
-  - destruct (st_is_cost (st_ekey sp e)); [right; reflexivity|].
-    destruct (st_lookup (sp_table sp) (st_ekey sp e)) as [r|]; [|discriminate].
-    destruct (st_row_flag r); [left; reflexivity|discriminate].
-  - destruct (st_lookup (sp_table sp) (st_ekey sp e)) as [r|].
-    + destruct (st_row_flag r); [left; reflexivity|discriminate].
-    + destruct (prefix "cost" (st_ekey sp e)); [|discriminate].
-      destruct (existsb _ fns); [left; reflexivity|discriminate].
-  - destruct (st_lookup (sp_table sp) (st_ekey sp e)) as [r|]; [|discriminate].
-    destruct (st_row_flag r); [left; reflexivity|discriminate].
+  intros sp e kv H. unfold st_eval in H. unfold st_listedb.
+  destruct (st_lookup (sp_table sp) (st_ekey sp e)) as [r|].
+  - destruct (match sp_cost sp with CostAny => st_is_cost (st_ekey sp e) | _ => false end); [apply orb_true_r|].
+    destruct (st_row_flag r); [reflexivity|discriminate].
+  - destruct (sp_cost sp) as [|fns|]; try discriminate.
+    destruct (prefix "cost" (st_ekey sp e)); [|discriminate].
+    destruct (existsb _ fns); [reflexivity|discriminate].
 Qed.
 
 Definition st_accepted (sp : st_spec) (e : st_entry) : Prop :=
-  (st_listedb sp e = true \/ st_any_costb sp e = true) /\ exists kv, st_eval sp e = ROk kv.
+  st_listedb sp e = true /\ exists kv, st_eval sp e = ROk kv.
 
-Lemma st_update_ok_accepted : forall sp es s s',
-  st_update sp s es = ROk s' -> Forall (st_accepted sp) (st_reached sp es).
+Lemma st_update_from_ok_forall : forall sp es seen s s',
+  st_update_from sp seen s es = ROk s' -> Forall (st_accepted sp) es.
 Proof.
-  intros sp es s s' H. pose proof (st_update_reached_forall _ _ _ _ H) as F.
-  eapply Forall_impl; [|exact F]. intros e [kv E]. split; [eapply st_eval_ok_listed; eauto | eauto].
+  induction es as [|e tl IH]; intros seen s s' H; [constructor|].
+  cbn [st_update_from] in H. destruct (sp_trim sp && existsb _ seen)%bool; [discriminate|].
+  unfold st_apply in H. destruct (st_eval sp e) as [[k v]| |] eqn:E; try discriminate.
+  constructor; [split; [eapply st_eval_ok_listed; eauto|eauto] | eapply IH; eauto].
+Qed.
+
+(* every entry of the request - not only those before some cut - was looked at and accepted *)
+Lemma st_update_ok_accepted : forall sp es s s', st_update sp s es = ROk s' -> Forall (st_accepted sp) es.
+Proof.
+  intros sp es s s' H. unfold st_update in H. pose proof (st_update_from_ok_forall _ _ _ _ _ H) as F.
+  rewrite Forall_forall in *. intros e I. apply F. eapply Permutation_in; [apply st_sort_perm|exact I].
 Qed.
 
 (* ---------- pending-changes merge (storagesc) ---------- *)
@@ -268,29 +172,23 @@ Proof.
   - destruct I as [I|I]; [left; exact I | right; apply IH; assumption].
 Qed.
 
+Lemma st_merge_keeps : forall es p x, In x p -> ~ In (e_key x) (map e_key es) -> In x (st_merge p es).
+Proof.
+  unfold st_merge. induction es as [|y tl IH]; intros p x I N; [exact I|].
+  cbn [fold_left]. apply IH.
+  - apply st_pend_set_keeps; [exact I|]. intro E. apply N. left. symmetry. exact E.
+  - intro X. apply N. right. exact X.
+Qed.
+
 Lemma st_merge_in : forall es p e,
   NoDup (map e_key es) -> In e es -> In e (st_merge p es).
 Proof.
-  unfold st_merge. induction es as [|x tl IH]; intros p e ND I; [destruct I|].
-  cbn [fold_left]. cbn [map] in ND. inversion ND as [|a b Hnin ND']; subst.
+  induction es as [|x tl IH]; intros p e ND I; [destruct I|].
+  cbn [map] in ND. inversion ND as [|a b Hnin ND']; subst.
   destruct I as [I|I].
-  - subst x. clear IH ND. revert p Hnin. induction tl as [|y tl IH2]; intros p Hnin.
-    + cbn. apply st_pend_set_in.
-    + cbn [fold_left]. cbn [map In] in Hnin. inversion ND' as [|a b Hn2 ND2]; subst.
-      assert (G : forall q, In e q -> In e (fold_left st_pend_set tl (st_pend_set q y))).
-      { intros q Hq. revert q Hq. clear IH2. revert ND2.
-        assert (Hny : e_key e <> e_key y) by (intro X; apply Hnin; left; symmetry; exact X).
-        assert (Hntl : ~ In (e_key e) (map e_key tl)) by (intro X; apply Hnin; right; exact X).
-        clear Hnin Hn2 ND'. revert y Hny. induction tl as [|z tl IH3]; intros y Hny ND2 q Hq.
-        - cbn. apply st_pend_set_keeps; assumption.
-        - cbn [fold_left]. cbn [map In] in Hntl. inversion ND2; subst.
-          apply IH3.
-          + intro X; apply Hntl; right; exact X.
-          + intro X; apply Hntl; left; symmetry; exact X.
-          + assumption.
-          + apply st_pend_set_keeps; assumption. }
-      apply G. apply st_pend_set_in.
-  - apply IH; assumption.
+  - subst x. change (st_merge p (e :: tl)) with (st_merge (st_pend_set p e) tl).
+    apply st_merge_keeps; [apply st_pend_set_in|exact Hnin].
+  - change (st_merge p (x :: tl)) with (st_merge (st_pend_set p x) tl). apply IH; assumption.
 Qed.
 
 (* ---------- the step function ---------- *)
@@ -301,15 +199,6 @@ Proof.
   intros k env s t N. unfold st_step.
   destruct (String.eqb_spec (st_owner k env s) (t_caller t)) as [E|_]; [congruence|]. reflexivity.
 Qed.
-
-Ltac st_break :=
-  repeat match goal with
-         | |- context [match ?x with _ => _ end] =>
-             lazymatch x with
-             | st_spec_of _ => fail
-             | _ => destruct x eqn:?
-             end
-         end.
 
 Lemma st_rejected_keeps : forall k env s o,
   snd (st_step k env s o) <> OutOk -> fst (st_step k env s o) = s.
@@ -330,7 +219,7 @@ Proof.
     destruct (st_valid_storage a); cbn [fst snd]; intro H; [exfalso; apply H|]; reflexivity.
 Qed.
 
-(* accepted update: every entry of the request was accepted (storagesc: every entry of the merged pending map) *)
+(* the entries an operation ranges over (storagesc: the merged pending map) *)
 Definition st_applied (k : st_contract) (s : st_state) (o : st_op) : list st_entry :=
   match k, o with
   | KStorage, OpUpdate t => match t_entries t with [] => [] | _ => st_merge (g_pend s) (t_entries t) end
@@ -340,7 +229,7 @@ Definition st_applied (k : st_contract) (s : st_state) (o : st_op) : list st_ent
   end.
 
 Lemma st_step_ok_accepted : forall k env s o s',
-  st_step k env s o = (s', OutOk) -> Forall (st_accepted (st_spec_of k)) (st_reached (st_spec_of k) (st_applied k s o)).
+  st_step k env s o = (s', OutOk) -> Forall (st_accepted (st_spec_of k)) (st_applied k s o).
 Proof.
   intros k env s o s' H. unfold st_step in H. unfold st_applied.
   destruct o as [t|].
@@ -359,30 +248,27 @@ Proof.
     destruct (st_update _ _ _) eqn:U; try discriminate. eapply st_update_ok_accepted; eauto.
 Qed.
 
-Definition st_is_update (o : st_op) : bool := match o with OpUpdate _ => true | OpCommit => false end.
-
+(* from a valid node every successful operation gives a valid node *)
 Lemma st_valid_after : forall k env s o s',
-  st_valid_of k (g_conf s) = true ->
-  st_step k env s o = (s', OutOk) ->
-  k <> KVesting ->
-  ~ (k = KStorage /\ env_demeter env = true /\ st_is_update o = true) ->
-  st_valid_of k (g_conf s') = true.
+  st_valid_of k (g_conf s) = true -> st_step k env s o = (s', OutOk) -> st_valid_of k (g_conf s') = true.
 Proof.
-  intros k env s o s' V H NV ND. unfold st_step in H.
+  intros k env s o s' V H. unfold st_step in H.
   destruct o as [t|].
   - destruct (negb (String.eqb (st_owner k env s) (t_caller t))); [discriminate|].
     destruct (negb (t_decodes t)); [discriminate|].
-    destruct k; cbn [st_spec_of sp_validate] in H; try (exfalso; apply NV; reflexivity).
+    destruct k; cbn [st_spec_of sp_validate] in H.
     + reflexivity.
     + destruct (st_update _ _ _) eqn:U; try discriminate.
       destruct (st_valid_miner a) eqn:W; inversion H; subst. exact W.
     + destruct (t_entries t); [inversion H; subst; exact V|].
       destruct (st_update _ _ _) eqn:U; try discriminate.
       destruct (env_demeter env) eqn:D.
-      * exfalso. apply ND. auto.
+      * destruct (st_valid_storage a) eqn:W; inversion H; subst. exact W.
       * inversion H; subst. exact V.
     + destruct (st_update _ _ _) eqn:U; try discriminate.
       destruct (st_valid_faucet a) eqn:W; inversion H; subst. exact W.
+    + destruct (st_update _ _ _) eqn:U; try discriminate.
+      destruct (st_valid_vesting a) eqn:W; inversion H; subst. exact W.
     + destruct (st_update _ _ _) eqn:U; try discriminate.
       destruct (st_valid_zcn a) eqn:W; inversion H; subst. exact W.
   - destruct k; try discriminate.
@@ -412,80 +298,64 @@ Proof.
     repeat match goal with |- context [match ?x with _ => _ end] => destruct x end; discriminate.
 Qed.
 
+Lemma st_parse_contract_no_panic : forall t raw po, st_parse false t raw po <> RPanic.
+Proof.
+  intros t raw po. destruct t; cbn [st_parse]; unfold st_of_opt;
+    repeat match goal with |- context [match ?x with _ => _ end] => destruct x eqn:? end; discriminate.
+Qed.
+
 Lemma st_globals_table_types : forallb (fun r => st_ty_globals_ok (st_row_ty r)) gen_globals_table = true.
 Proof. vm_compute. reflexivity. Qed.
 
-Lemma st_eval_globals_no_panic : forall e, st_eval (st_spec_of KGlobals) e <> RPanic.
+Lemma st_eval_no_panic : forall k e, st_eval (st_spec_of k) e <> RPanic.
 Proof.
-  intro e. unfold st_eval. cbn [st_spec_of sp_cost sp_table sp_globals].
-  destruct (st_lookup gen_globals_table _) as [r|] eqn:L; [|discriminate].
-  destruct (st_row_flag r); [|discriminate].
-  pose proof (st_lookup_in _ _ _ L) as I.
-  pose proof st_globals_table_types as T. rewrite forallb_forall in T. specialize (T r I).
-  pose proof (st_parse_globals_no_panic (st_row_ty r) (st_evalue (st_spec_of KGlobals) e) (e_po e) T).
-  destruct (st_parse true (st_row_ty r) _ (e_po e)); [discriminate|discriminate|congruence].
+  intros k e. unfold st_eval.
+  destruct (st_lookup (sp_table (st_spec_of k)) (st_ekey (st_spec_of k) e)) as [r|] eqn:L.
+  - destruct (match sp_cost (st_spec_of k) with CostAny => _ | _ => false end).
+    + destruct (po_int (e_po e)); discriminate.
+    + destruct (st_row_flag r); [|discriminate].
+      assert (N : st_parse (sp_globals (st_spec_of k)) (st_row_ty r) (st_evalue (st_spec_of k) e) (e_po e) <> RPanic).
+      { destruct k; cbn [st_spec_of sp_globals]; try apply st_parse_contract_no_panic.
+        apply st_parse_globals_no_panic. cbn [st_spec_of sp_table] in L.
+        pose proof (st_lookup_in _ _ _ L) as I. pose proof st_globals_table_types as T.
+        rewrite forallb_forall in T. exact (T r I). }
+      destruct (st_parse _ _ _ _); [discriminate|discriminate|congruence].
+  - destruct (sp_cost (st_spec_of k)) as [|fns|]; try discriminate.
+    repeat match goal with |- context [match ?x with _ => _ end] => destruct x end; discriminate.
 Qed.
 
-Lemma st_update_no_panic : forall sp es s,
-  (forall e, In e es -> st_eval sp e <> RPanic) -> st_update sp s es <> RPanic.
+Lemma st_update_from_no_panic : forall k es seen s, st_update_from (st_spec_of k) seen s es <> RPanic.
 Proof.
-  induction es as [|e tl IH]; intros s H; [discriminate|].
-  cbn [st_update]. unfold st_apply.
-  destruct (st_eval sp e) as [[k v]| |] eqn:E.
-  - destruct (st_terminal sp e); [discriminate|]. apply IH. intros x I. apply H. right. exact I.
-  - discriminate.
-  - exfalso. eapply H; [left; reflexivity|exact E].
+  induction es as [|e tl IH]; intros seen s; [discriminate|].
+  cbn [st_update_from]. destruct (_ && _)%bool; [discriminate|].
+  unfold st_apply. pose proof (st_eval_no_panic k e) as N.
+  destruct (st_eval (st_spec_of k) e) as [[a v]| |]; [apply IH|discriminate|congruence].
 Qed.
 
-Lemma st_globals_never_panics : forall env s o, snd (st_step KGlobals env s o) <> OutPanic.
+Lemma st_update_no_panic : forall k s es, st_update (st_spec_of k) s es <> RPanic.
+Proof. intros k s es. unfold st_update. apply st_update_from_no_panic. Qed.
+
+Lemma st_step_never_panics : forall k env s o, snd (st_step k env s o) <> OutPanic.
 Proof.
-  intros env s o. unfold st_step. destruct o as [t|]; [|cbn; discriminate].
-  destruct (negb _); [cbn; discriminate|]. destruct (negb _); [cbn; discriminate|].
-  pose proof (st_update_no_panic (st_spec_of KGlobals) (t_entries t) (g_conf s) (fun e _ => st_eval_globals_no_panic e)) as N.
-  destruct (st_update _ _ _); cbn; try discriminate. congruence.
+  intros k env s o. unfold st_step.
+  assert (N : forall c es, st_update (st_spec_of k) c es <> RPanic) by (intros; apply st_update_no_panic).
+  destruct o as [t|].
+  - destruct (negb _); [cbn; discriminate|]. destruct (negb _); [cbn; discriminate|].
+    destruct k; cbn [st_spec_of sp_validate] in *.
+    + destruct (st_update _ _ _) eqn:U; cbn; try discriminate. exfalso. eapply N; eassumption.
+    + destruct (st_update _ _ _) eqn:U; cbn; try discriminate; [|exfalso; eapply N; eassumption].
+      destruct (st_valid_miner a); cbn; discriminate.
+    + destruct (t_entries t) eqn:T; [cbn; discriminate|]. rewrite <- T.
+      destruct (st_update _ _ _) eqn:U; cbn; try discriminate; [|exfalso; eapply N; eassumption].
+      destruct (env_demeter env); [destruct (st_valid_storage a)|]; cbn; discriminate.
+    + destruct (st_update _ _ _) eqn:U; cbn; try discriminate; [|exfalso; eapply N; eassumption].
+      destruct (st_valid_faucet a); cbn; discriminate.
+    + destruct (st_update _ _ _) eqn:U; cbn; try discriminate; [|exfalso; eapply N; eassumption].
+      destruct (st_valid_vesting a); cbn; discriminate.
+    + destruct (st_update _ _ _) eqn:U; cbn; try discriminate; [|exfalso; eapply N; eassumption].
+      destruct (st_valid_zcn a); cbn; discriminate.
+  - destruct k; cbn [fst snd]; try discriminate. cbn [st_spec_of] in *.
+    destruct (g_pend s) eqn:P; cbn [fst snd]; [discriminate|]. rewrite <- P.
+    destruct (st_update _ _ _) eqn:U; cbn; try discriminate; [|exfalso; eapply N; eassumption].
+    destruct (st_valid_storage a); cbn; discriminate.
 Qed.
-
-Lemma st_parse_no_panic_contract : forall t raw po,
-  po_zcn po <> ZcnPanic -> st_parse false t raw po <> RPanic.
-Proof.
-  intros t raw po H. destruct t; cbn [st_parse]; unfold st_of_opt;
-    repeat match goal with |- context [match ?x with _ => _ end] => destruct x eqn:? end; try discriminate; congruence.
-Qed.
-
-Lemma st_update_contract_no_panic : forall sp es s,
-  sp_globals sp = false ->
-  (forall e, In e es -> po_zcn (e_po e) <> ZcnPanic) -> st_update sp s es <> RPanic.
-Proof.
-  intros sp es s G H. apply st_update_no_panic. intros e I. specialize (H e I).
-  unfold st_eval. rewrite G.
-  repeat match goal with |- context [match ?x with _ => _ end] =>
-    lazymatch x with
-    | st_parse _ _ _ _ => fail
-    | _ => destruct x eqn:?
-    end end; try discriminate.
-  pose proof (st_parse_no_panic_contract (st_row_ty s0) (st_evalue sp e) (e_po e) H).
-  destruct (st_parse false (st_row_ty s0) (st_evalue sp e) (e_po e)); try discriminate; congruence.
-Qed.
-
-(* contracts without the "any cost.* key" branch accept listed keys only *)
-Lemma st_no_any_cost : forall k e, k <> KMiner -> k <> KStorage -> st_any_costb (st_spec_of k) e = false.
-Proof. intros k e N1 N2. destruct k; try reflexivity; contradiction. Qed.
-
-Lemma st_step_ok_listed : forall k env s o s',
-  k <> KMiner -> k <> KStorage ->
-  st_step k env s o = (s', OutOk) ->
-  Forall (fun e => st_listedb (st_spec_of k) e = true /\ exists kv, st_eval (st_spec_of k) e = ROk kv)
-         (st_reached (st_spec_of k) (st_applied k s o)).
-Proof.
-  intros k env s o s' N1 N2 H. pose proof (st_step_ok_accepted _ _ _ _ _ H) as F.
-  eapply Forall_impl; [|exact F]. intros e [[L|A] E].
-  - split; assumption.
-  - rewrite (st_no_any_cost k e N1 N2) in A. discriminate.
-Qed.
-
-(* only faucetsc and vestingsc have the early return *)
-Lemma st_no_terminal : forall k e, k <> KFaucet -> k <> KVesting -> st_terminal (st_spec_of k) e = false.
-Proof. intros k e N1 N2. destruct k; try reflexivity; contradiction. Qed.
-
-Lemma st_reached_all_contract : forall k es, k <> KFaucet -> k <> KVesting -> st_reached (st_spec_of k) es = es.
-Proof. intros k es N1 N2. apply st_reached_all. intro e. apply st_no_terminal; assumption. Qed.
